@@ -29,7 +29,7 @@ class Q:
     def __init__(self, name, harness, defs=None, extra=(), libtus=(), remove=(), unwind=2, unwindset=(),
                  mode="func", flags=(), timeout=None, mem_gb=None, uthash="model", note="", bounds=None,
                  replay=True, replay_libs=(), native_extra=None, kf=(), object_bits=None, group=None, std="gnu99",
-                 native_only_defs=None, stubs_note=(), gen=None):
+                 native_only_defs=None, stubs_note=(), gen=None, lib_defs=None):
         self.name = name
         self.harness = harness
         self.defs = dict(defs or {})
@@ -53,6 +53,7 @@ class Q:
         self.group = group or harness
         self.std = std
         self.stubs_note = list(stubs_note)
+        self.lib_defs = dict(lib_defs or {})   # extra -D for the repo TUs only (e.g. malloc renaming)
         self.gen = gen                    # callable(dir): writes generated headers (from /repo's current tree) into dir
 
 
@@ -104,7 +105,7 @@ def build(q, wd, kf_excluded):
         q.gen(wd)
     for tu in q.libtus:
         o = os.path.join(wd, tu.replace("/", "_") + ".o")
-        cmd = ["goto-cc", "-std=c89", "-c", "--export-file-local-symbols", "-o", o, os.path.join(REPO, "src", tu)] + inc + defs
+        cmd = ["goto-cc", "-std=c89", "-c", "--export-file-local-symbols", "-o", o, os.path.join(REPO, "src", tu)] + inc + defs + define_flags(q.lib_defs)
         rc, out, err, to, _ = sh(cmd, timeout=120)
         log.append(" ".join(cmd)); log.append(err[-2000:])
         if rc != 0:
@@ -175,7 +176,7 @@ def resolve_unwindset(q, wd):
 
 
 def cbmc_cmd(q, wd, trace_prop=None):
-    cmd = ["cbmc", os.path.join(wd, "q.goto"), "--function", "harness", "--json-ui",
+    cmd = ["cbmc", os.path.join(wd, "q.goto"), "--function", "harness", "--json-ui", "--verbosity", "8",
            "--unwind", str(q.unwind), "--unwinding-assertions", "--drop-unused-functions"]
     if q.unwindset:
         cmd += ["--unwindset", ",".join(resolve_unwindset(q, wd))]
@@ -216,6 +217,9 @@ def parse_cbmc_json(out):
             mm = re.search(r"(\d+) variables, (\d+) clauses", t)
             if mm:
                 stats["sat_vars"] = int(mm.group(1)); stats["sat_clauses"] = int(mm.group(2))
+            mm = re.search(r"size of program expression: (\d+) steps", t)
+            if mm:
+                stats["ssa_steps"] = int(mm.group(1))
             mm = re.search(r"Runtime Symex: ([\d.e+-]+)s", t)
             if mm:
                 stats["symex_s"] = float(mm.group(1))
@@ -237,7 +241,10 @@ def classify(results):
         desc = r.get("description", "")
         pid = r.get("property", "")
         st = r.get("status")
-        if desc.startswith("WITNESS"):
+        if desc.startswith("WITNESS?"):
+            if st == "FAILURE":
+                wit_ok.append(desc)
+        elif desc.startswith("WITNESS"):
             (wit_ok if st == "FAILURE" else wit_bad).append(desc)
         elif ".unwind." in pid or ".recursion" in pid or "unwinding assertion" in desc or "recursion unwinding" in desc:
             if st == "FAILURE":
@@ -322,6 +329,10 @@ def native_replay(q, script, rdir, kf_excluded, hang_only=False):
         w.write("/* generated by lib/driver.py: native replay of %s */\n" % q.name)
         for tu in q.libtus:
             src = open(os.path.join(REPO, "src", tu)).read()
+            if q.lib_defs:
+                src = ("#include <stdlib.h>\n#include <string.h>\nvoid *vf_malloc(size_t); void *vf_calloc(size_t, size_t); "
+                       "void *vf_realloc(void *, size_t); char *vf_strdup(const char *);\n"
+                       + "".join("#undef %s\n#define %s %s\n" % (k, k, v) for k, v in q.lib_defs.items()) + src)
             base = os.path.basename(tu).replace(".", "_")
             for (rtu, fn) in q.remove:
                 if rtu == tu:
@@ -615,6 +626,14 @@ def write_evidence(pid, tier, seed, results, wall, queries):
                     "(query instance, reachability witness) pairs of queries that held: a witness is an assert(0) planted at the end of a "
                     "harness branch and must be reported FAILED by the solver, i.e. that branch and its assertions are reachable (not vacuous)",
             "samples": samples,
+            "states": max(1, sum((r.get("stats") or {}).get("ssa_steps", 0) for r in results)),
+            "transitions": max(1, sum(max((r.get("stats") or {}).get("ssa_steps", 0) - 1, 0) for r in results)),
+            "traces_validated_against_impl": len([r for r in results if r.get("replay_status")]),
+            "states_transitions_meaning": "states = SSA steps of the bounded unrollings that CBMC's symbolic execution produced, summed over "
+                                          "the queries of this run (each step is one symbolic state of the unrolled program, standing for "
+                                          "all input values at once); transitions = step-to-step edges of those unrollings (steps - 1 per "
+                                          "query); traces_validated_against_impl = solver counterexamples replayed natively (ASan/UBSan "
+                                          "build of the same sources) in this run",
             "obligations": sum(r.get("n_properties", 0) for r in results),
             "discharged": sum(r.get("n_success", 0) for r in results),
             "solver_seconds": round(sum(r.get("cbmc_s", 0) for r in results), 1),
